@@ -209,6 +209,8 @@ pub struct AsyncSinkIo {
     /// after every accepted write the transport is busy once (`Pending`, woken at once) before it takes more
     wait_between_writes: bool,
     busy: bool,
+    /// poll_write calls left before the transport gives up on a writer that makes no progress
+    polls_left: usize,
     pub sink: Arc<Mutex<Vec<u8>>>,
 }
 
@@ -225,6 +227,10 @@ impl tokio::io::AsyncRead for AsyncSinkIo {
 
 impl tokio::io::AsyncWrite for AsyncSinkIo {
     fn poll_write(mut self: std::pin::Pin<&mut Self>, cx: &mut std::task::Context<'_>, buf: &[u8]) -> std::task::Poll<io::Result<usize>> {
+        if self.polls_left == 0 {
+            return std::task::Poll::Ready(Err(io::Error::new(io::ErrorKind::Other, "the writer makes no progress (poll budget of the harness transport exhausted)")));
+        }
+        self.polls_left -= 1;
         if self.wait_between_writes && self.busy {
             self.busy = false;
             cx.waker().wake_by_ref();
@@ -267,7 +273,7 @@ pub fn wire_async_limited_waiting(item: WireItem, limit: usize) -> Result<Vec<u8
 }
 
 fn wire_async(item: WireItem, limit: usize, wait_between_writes: bool) -> Result<Vec<u8>, String> {
-    let io = AsyncSinkIo { greeting_done: false, limit, wait_between_writes, busy: false, sink: Arc::new(Mutex::new(Vec::new())) };
+    let io = AsyncSinkIo { greeting_done: false, limit, wait_between_writes, busy: false, polls_left: if wait_between_writes { 4_000 } else { 3_000_000 }, sink: Arc::new(Mutex::new(Vec::new())) };
     let sink = io.sink.clone();
     let mut conn = drive_ready(mpd_protocol::AsyncConnection::connect(io))?.map_err(|e| format!("{e:?}"))?;
     match item {
